@@ -371,7 +371,7 @@ def handle_mismatches(ctx, binp, recs, bad, source):
     known = [k for k in load_known()["open"] if k["property"] == ctx.pid]
     preds = cfg.get("predicates", {})
     reported = 0
-    seen_known = set()
+    seen_known = ctx.__dict__.setdefault('_seen_known', set())
 
     def match_known(case, rec, exp):
         for k in known:
